@@ -32,6 +32,11 @@ func (c07) Gen(r *hx.Run) {
 		"3 3 sa:31 X0 X1 X2 ga U0 U1 U2 W ga ga", "3 3 sa:31 sb:32 sc:33 X0 X1 X2 ga gb gc U0 U1 U2 W ga gb gc ga gb gc",
 		"3 3 X0 X1 X2 sa:31 U0 U1 U2 W sa:31 ga", "3 3 sa:31 Oa:0 ga W ga ga", "3 3 sa:31 Oa:1 ga W ga ga", "3 3 sa:31 Oa:2 ga W ga ga",
 		"3 3 sa:31 sb:32 Oa:1 Ob:2 ga gb W ga gb ga gb", "4 3 sa:31 Oa:3 ga W ga ga sa:32 ga",
+		// a node comes back on another address under the same node id
+		"3 3 sa:31 sb:32 sc:33 A0 ga gb gc W ga gb gc", "3 3 sa:31 sb:32 sc:33 A1 A2 ga gb gc ga gb gc W ga gb gc", "3 3 sa:31 A0 A1 A2 ga W ga A0 A1 A2 ga W ga",
+		// two layout changes closer together than the minimum spacing of refreshes
+		"3 3 T150 sa:31 sb:32 Oa:1 ga Ob:2 gb W W gb ga gb", "3 3 T150 sa:31 sb:32 sc:33 Oa:1 ga Ob:2 gb Oc:0 gc W W ga gb gc", "3 3 T300 sa:31 Oa:1 ga Oa:2 ga W W W ga ga",
+		"3 3 T400 sa:31 Oa:1 ga W W ga ga", "3 3 T400 sa:31 sb:32 Oa:1 Ob:2 ga W gb W ga gb", "3 3 T400 sa:31 Oa:2 ga W ga Oa:0 ga W W ga",
 	}
 	for _, b := range basic {
 		r.Do("c07.cl "+b, true, "basic")
@@ -61,8 +66,13 @@ func (c07) Gen(r *hx.Run) {
 					toks = append(toks, fmt.Sprintf("X%d", nd))
 					down[nd] = true
 				}
-			case x < 18:
+			case x < 17:
 				toks = append(toks, fmt.Sprintf("O%s:%d", k, rng.Intn(3)))
+			case x < 18:
+				nd := rng.Intn(3)
+				if !down[nd] {
+					toks = append(toks, fmt.Sprintf("A%d", nd))
+				}
 			default:
 				toks = append(toks, "W")
 			}
@@ -77,6 +87,6 @@ func (c07) Gen(r *hx.Run) {
 			toks = append(toks, "g"+k)
 		}
 		line := "c07.cl 3 3 " + strings.Join(toks, " ")
-		r.Do(line, strings.ContainsAny(line, "XZO"), "hist")
+		r.Do(line, strings.ContainsAny(line, "XZOA"), "hist")
 	}
 }
